@@ -240,6 +240,22 @@ fn explicit_cases() -> Vec<(String, Vec<u8>, String)> {
             v.push(("x.ans".into(), b, format!("{:?} x3 under a SAUCE record {t1} x {t2}", body)));
         }
     }
+    // UTF-8 files (byte order mark): the parsers get characters above U+00FF where their protocols have one byte - repeat counts,
+    // positions and colour arguments taken from a character
+    for (ext, lead) in [("avt", &b"\x19A"[..]), ("avt", &b"\x16\x08"[..]), ("avt", &b"\x16\x01"[..]), ("pcb", &b"@X"[..]), ("msg", &b"\x01"[..]), ("an1", &b"|"[..]), ("ans", &b"\x1b["[..]), ("asc", &b""[..])] {
+        for wide in ['\u{100}', '\u{ffff}', '\u{10ffff}'] {
+            // (few repetitions: the budgets are fixed ones, calibrated for short inputs)
+            for reps in [1usize, 400] {
+                let mut b = vec![0xEF, 0xBB, 0xBF];
+                for _ in 0..reps {
+                    b.extend(lead);
+                    b.extend(wide.to_string().as_bytes());
+                    b.extend(wide.to_string().as_bytes());
+                }
+                v.push((format!("x.{ext}"), b, format!("UTF-8 .{ext} file: {reps} x {:?} followed by two U+{:04X}", String::from_utf8_lossy(lead), wide as u32)));
+            }
+        }
+    }
     // IcyDraw layer records with extreme 64 bit data lengths
     for len in [u64::MAX, u64::MAX - 1, 1 << 63, (1 << 63) - 1, 1 << 32, (1 << 32) - 1, u32::MAX as u64 - 40] {
         for role in [0u8, 1] {
